@@ -90,6 +90,7 @@ func (x iface) eq(t types.Type, _y interface{}) bool {
 // In a well-typed program, the dynamic types of x and y are
 // guaranteed equal.
 func equals(t types.Type, x, y value) bool {
+	x, y = forceLazy(x), forceLazy(y)
 	if isSym(x) || isSym(y) {
 		b := builderOf(x, y)
 		tx, _ := termOf(b, x)
